@@ -1490,17 +1490,20 @@ func (fx *FuncCtx) execUnOp(st *State, in *ssa.UnOp) {
 				if i := strings.Index(first, "."); i >= 0 {
 					first = first[:i]
 				}
-				if cls, _ := fx.eng.fieldClass(namedOf(x.L.Root), first); cls == "nonnilchan" {
+				cls, _ := fx.eng.fieldClass(namedOf(x.L.Root), first)
+				if cls == "nonnilchan" || cls == "openchan+nonnil" {
 					// only non-nil values are ever sent on this channel (declared; trusted, checked at the senders under contract)
 					fx.decls.declare("CH$nonnil", "(Array Int Bool)")
 					st.assume(sx("select", "CH$nonnil", v.C[0]))
 					fx.trusted["field "+typeStr(x.L.Root)+"."+first+": only non-nil values are sent on this channel"] = true
-				} else if cls == "signal" {
+				}
+				if cls == "signal" {
 					// a channel that is only ever closed, never sent to (declared; trusted)
 					fx.decls.declare("CH$signal", "(Array Int Bool)")
 					st.assume(sx("select", "CH$signal", v.C[0]))
 					fx.trusted["field "+typeStr(x.L.Root)+"."+first+" is a signal channel: it is only closed, never sent to"] = true
-				} else if cls == "openchan" {
+				}
+				if cls == "openchan" || cls == "openchan+nonnil" {
 					// a channel that is never closed and never nil (declared; every close() under contract is checked against it)
 					fx.decls.declare("CH$open", "(Array Int Bool)")
 					st.assume(sx("select", "CH$open", v.C[0]))
